@@ -44,7 +44,7 @@ from modelx.core.space import (
     SpaceView,
     RefDict
 )
-from modelx.core.formula import NULL_FORMULA
+from modelx.core.formula import NULL_FORMULA, Formula
 from modelx.core.util import is_valid_name, AutoNamer
 from modelx.core.chainmap import CustomChainMap
 
@@ -1449,6 +1449,10 @@ class SpaceManager(SharedSpaceOperations):
 
     def set_cells_property(self, cells, flags, func, enable_cache):
         """Set formula and/or is_enabled"""
+        if (flags & UserCellsImpl.PROP_FORMULA
+                and not isinstance(func, Formula)):
+            # Raise before changing anything if func is malformed
+            func = Formula(func, name=cells.name)
         define = True
         for space in self._get_subs(cells.parent, skip_self=False):
             c = space.cells[cells.name]
